@@ -153,6 +153,11 @@ def _worker(task):
             for Y in others_for(X):
                 if Y != X:
                     variants += [([X, Y], False), ([Y, X], False)]
+            if cleaned and X.endswith('_mainprog'):
+                # the main-progenitor history columns are reshaped together: every ordered pair among them
+                for Y in names:
+                    if Y.endswith('_mainprog') and Y != X and ([X, Y], False) not in variants:
+                        variants += [([X, Y], False), ([Y, X], False)]
             variants += [('DEFAULT_FIELDS', False)]
             base = None
             for fields, subs in variants:
